@@ -27,6 +27,7 @@ LEVEL_TEXT = (
     "values and (at 4 states x 2 times) derived values, fluxes and derivatives are compared with the original "
     "(rtol 1e-12; printed literals carry 15 digits). Untranslatable functions must make generation raise."
     ' Also: every rebuilt model is generated and rebuilt a second time, several models are generated into ONE module file in one process (session family), and the patterns include helpers imported locally, names the generator uses itself, ignored parameters, repeated arguments and tuple displays with an untranslatable element.'
+    ' Also: rate functions with positional-only / defaulted parameters; two different functions of one name behind initial assignments; conditional test rates whose branches differ at the boundary.'
 )
 LEVEL_NOTE = "trusted: CPython exec of the generated module; the original model is the oracle"
 RULE = (
